@@ -5,6 +5,7 @@ import (
 	"io"
 	"net/http"
 	"net/url"
+	"time"
 
 	"github.com/johannesboyne/gofakes3"
 	"github.com/johannesboyne/gofakes3/backend/s3mem"
@@ -378,17 +379,26 @@ func VH_C07h() {
 // complete and abort; afterwards the object is either absent/old or exactly
 // the acknowledged parts.
 func VH_C07m() {
+	armed, done := false, int32(0)
 	mk := func() (http.Handler, *s3mem.Backend, string) {
-		h, b := c07HTTPState(false)
+		b := c07State(false)
+		// the clock is a scheduling point (natively: a short wait for the other
+		// client), so that work done between reading it and storing a part is
+		// exposed to the other client's request
+		h := gofakes3.New(b, gofakes3.WithTimeSkewLimit(0), gofakes3.WithTimeSource(gateClock{&armed, &done})).Server()
 		id := initiate(h, "m", http.Header{})
 		vsym.Assert(uploadPart(h, "m", id, 1, []byte("p1")).Code() == 200, "C07m/setup")
 		return h, b, id
 	}
-	opA := vsym.Choice("opA", 3)
-	opB := vsym.Choice("opB", 3)
+	opA := vsym.Choice("opA", 4)
+	opB := vsym.Choice("opB", 4)
 	body := vsym.Bytes("part", 1)
 	run := func(h http.Handler, id string, op int) string {
+		defer vsym.SetFlag(&done)
 		switch op {
+		case 3: // upload part 1 again with other bytes (the part a concurrent complete names)
+			r := uploadPart(h, "m", id, 1, []byte("P1"))
+			return "repart:" + itoa(r.Code()) + ":" + r.ErrCode()
 		case 0: // upload (or re-upload) part 2
 			r := uploadPart(h, "m", id, 2, body)
 			return "part:" + itoa(r.Code()) + ":" + r.Hdr.Get("ETag")
@@ -415,9 +425,12 @@ func VH_C07m() {
 	f2 := final(h2, s2, id2)
 	h, s, id := mk()
 	var ra, rb string
+	done = 0
+	armed = true
 	vsym.Go(func() { ra = run(h, id, opA) })
 	vsym.Go(func() { rb = run(h, id, opB) })
 	vsym.Join()
+	armed = false
 	f := final(h, s, id)
 	ab := vsym.And(vsym.And(vsym.StrEq(ra, a1), vsym.StrEq(rb, b1)), vsym.StrEq(f, f1))
 	ba := vsym.And(vsym.And(vsym.StrEq(ra, a2), vsym.StrEq(rb, b2)), vsym.StrEq(f, f2))
@@ -499,3 +512,19 @@ func VH_C07c() {
 	vsym.Assert(vsym.Or(vsym.And(isOld, metaOld), vsym.And(isNew, metaNew)), "C07c/copy-pairs-bytes-and-metadata-of-one-upload")
 	vsym.Reach("C07c/done")
 }
+
+// gateClock is the server's time source in VH_C07m: reading the clock is a
+// scheduling point while armed.
+type gateClock struct {
+	armed *bool
+	done  *int32
+}
+
+func (g gateClock) Now() time.Time {
+	if *g.armed {
+		vsym.YieldUntil(g.done)
+	}
+	return time.Now()
+}
+
+func (g gateClock) Since(t time.Time) time.Duration { return time.Since(t) }
